@@ -17,7 +17,7 @@ for name in sorted(os.listdir(os.path.join(V, "seeded"))):
         if d.startswith("violated predicate: "):
             pred = d[len("violated predicate: "):].split(" | ")[0]
             break
-    c = ", ".join(caught) if caught else "**none**"
+    c = ", ".join(caught) if caught else ("none: " + m["judged"].split(":")[0] if m.get("judged") else "**none**")
     if missed:
         c += " (not by " + ", ".join(missed) + ")"
     print("| `%s` | %s | %s | %s | %s |" % (name, m["breaks_property"], m.get("needs_to_manifest", "").replace("|", "/"), c, pred))
